@@ -1,4 +1,4 @@
-"""F14 / F31 / F32 (C18, fixed): wrong-typed config values surfaced as raw TypeError / AttributeError / ValueError, or
+"""F14 / F31 / F32 / F33 (C18, fixed): wrong-typed config values surfaced as raw TypeError / AttributeError / ValueError, or
 were silently accepted when falsy."""
 from xstate_statemachine import create_machine, MachineLogic, SyncInterpreter
 from xstate_statemachine.exceptions import XStateMachineError
@@ -22,6 +22,7 @@ c = base(); c["states"]["a"]["on"]["GO"]["target"] = 7; cases["target is a numbe
 c = base(); c["states"]["a"]["invoke"] = {"src": ["s"]}; cases["invoke src is a list"] = c
 c = base(); c["states"]["a"]["on"]["GO"]["actions"] = [{"type": 0}]; cases["action type is a number"] = c
 c = base(); c["states"]["a"]["on"]["GO"]["guard"] = {"type": "and", "children": 7}; cases["guard children is a number"] = c
+c = base(); c["states"]["a"]["on"]["GO"]["guard"] = {"type": "and", "params": {"guards": 7}}; cases["params.guards is a number"] = c
 c = base(); c["maxIterations"] = []; cases["maxIterations is a list"] = c
 c = base(); c["states"]["b"]["states"] = 0; cases["nested states is 0"] = c
 c = base(); c["states"]["a"]["entry"] = 0; cases["entry is 0"] = c
